@@ -13,7 +13,7 @@ from bvm import harness
 
 PROP = "C16"
 RULE = ("histories over 2..5 identities of {create Session-Id AVP, create Acct-Multi-Session-Id AVP, create typed message "
-        "from identity, bulk origin update to same/other identity, advance clock by 0.3/1/5 s, Session-Id from bytes}; "
+        "from identity, bulk origin update to same/other identity - alone or together with a Session-Id given as bytes or as an identity -, advance clock by 0.3/1/5 s, Session-Id from bytes}; "
         "exhaustive to length L (4 quick, 5 thorough) over a 14-operation alphabet with 2 identities and up to three live messages, random to length 400/2000, a quarter of them in another clock era (2036 rollover, 2040, 2106) and/or after 2^16, 2^31, 2^32 ids; oracle: set "
         "membership over every id issued in the history + RFC 6733 8.8 grammar; distinct = distinct op sequences")
 
@@ -132,6 +132,27 @@ class History:
             m.update_avps({"origin_host": ident})
             self.record(m.session_id_avp.data, ident, how)
             self.acc.counters["bulk_updates"] += 1
+        elif op.startswith("both"):
+            # a bulk update that names the Session-Id as well: supplied bytes are carried unchanged, a supplied identity string
+            # is what the new id is generated from - the Origin-Host given alongside has no say
+            m = DiameterMessage(DiameterHeader(command_code=316, application_id=16777251))
+            m.append(SessionIdAVP(IDS[0]))
+            self.record(m.session_id_avp.data, IDS[0], how + "(create)")
+            m.append(OriginHostAVP(IDS[0]))
+            m.append(OriginRealmAVP("example.org"))
+            other = IDS[(int(op[-1]) + 1) % len(IDS)]
+            if n % 2:
+                supplied = b"peer.remote.example;1559529822;%d" % n
+                m.update_avps({"session_id": supplied, "origin_host": other} if n % 4 == 1 else {"origin_host": other, "session_id": supplied})
+                got = m.session_id_avp.data
+                self.acc.counters["bytes_passthrough"] += 1
+                if got != supplied:
+                    self.acc.violation("session-id-bytes-altered", "update_avps(session_id=%r, origin_host=%r) left Session-Id %r" % (supplied, other, got),
+                                       {"trace": list(self.trace), "start": self.start, "uptime": self.uptime})
+            else:
+                m.update_avps({"session_id": ident, "origin_host": other})
+                self.record(m.session_id_avp.data, ident, how)
+            self.acc.counters["bulk_updates"] += 1
         elif op.startswith("upd"):
             if self.msg is None:
                 m = DiameterMessage(DiameterHeader(command_code=316, application_id=16777251))
@@ -181,7 +202,7 @@ def run_batch(b):
         acc.extra["distinct_sequences"] = acc.evaluations
         acc.sample({"exhaustive_length": L, "first_ops": b["first"], "example": list(seq)})
     else:
-        ops = OPS + ["sid2", "sid3", "upd2", "upd3", "upd4", "msg1", "msg2", "acct1", "t5", "t0.3", "new2", "nxt2", "nxt3", "raw1", "raw2"]
+        ops = OPS + ["sid2", "sid3", "upd2", "upd3", "upd4", "msg1", "msg2", "acct1", "t5", "t0.3", "new2", "nxt2", "nxt3", "raw1", "raw2", "both0", "both1", "both3"]
         for k in range(b["n"]):
             # every fourth history runs in another clock era (NTP seconds roll over on 2036-02-07 06:28:16) and/or
             # in a process that has been up for a long time
